@@ -658,6 +658,24 @@ func (fv *FV) expandMacro(env *SpecEnv, m *Macro, args []SExpr) Val {
 	if m.Opaque {
 		return fv.opaquePredApp(env, m, args)
 	}
+	if m.Ufn {
+		menv := &SpecEnv{fv: fv, names: map[string]Val{}, cur: env.cur, old: env.old, pkg: fv.w.pkgOf(m.Pkg), tsub: env.tsub}
+		if menv.pkg == nil {
+			menv.pkg = env.pkg
+		}
+		var sorts, ts []string
+		for i, p := range m.Params {
+			t := menv.resolveType(p.Type)
+			a := fv.specConv(fv.evalSpec(env, args[i]), fv.sess.sortOf(t))
+			sorts = append(sorts, fv.sess.sortOf(t))
+			ts = append(ts, a.T)
+		}
+		rt := menv.resolveType(m.Ret)
+		rs := fv.sess.sortOf(rt)
+		name := "uf_" + m.Name
+		fv.sess.decl("fn:"+name, fmt.Sprintf("(declare-fun %s (%s) %s)", name, strings.Join(sorts, " "), rs))
+		return Val{T: fmt.Sprintf("(%s %s)", name, strings.Join(ts, " ")), S: rs, Go: rt}
+	}
 	if env.macroDepth > 20 {
 		fv.unsupported("spec: macro recursion %s (use recfn)", m.Name)
 	}
